@@ -51,13 +51,21 @@ Qed.
 Theorem planArc_spec posX posY endX endY i j cw :
   planArc posX posY endX endY i j cw = arc_spec posX posY endX endY i j cw.
 Proof.
-  unfold planArc, arc_spec, arc_point, arc_segments, arc_sweep. cbv zeta.
-  rewrite for_range_iter.
-  set (sw := if _ && _ && _ then _ else _).
+  unfold planArc. cbv zeta. unfold Rgtb, Rgeb. rewrite for_range_iter.
+  (* the sweep the generated code computes is [arc_sweep]: same branches, the full-circle test compared by its truth condition
+     (so the order of its conjuncts and the side on which a comparison is written do not matter) *)
+  match goal with |- context [Z.max 1 (Rceil (Rabs ?s * _ / _))] => set (sw := s) end.
+  assert (SW : sw = arc_sweep posX posY endX endY i j cw).
+  { unfold sw, arc_sweep. cbv zeta.
+    first [ reflexivity
+          | match goal with |- (if ?g then _ else _) = (if ?g' then _ else _) =>
+              replace g with g' by (apply Bool.eq_true_iff_eq; rewrite ?andb_true_iff; tauto) end; reflexivity ]. }
+  clearbody sw. subst sw.
+  unfold arc_spec, arc_point, arc_segments.
   set (n := Z.max 1 _).
   match goal with |- context [Nat.iter ?m ?f (?a, ?l)] =>
-    change (Nat.iter m f (a, l)) with (Nat.iter m (arc_body (posX + i) (posY + j) (hypot i j) (sw / IZR n)) (a, l));
-    rewrite (iter_arc (posX + i) (posY + j) (hypot i j) (sw / IZR n) m a l) end.
+    change (Nat.iter m f (a, l)) with (Nat.iter m (arc_body (posX + i) (posY + j) (hypot i j) (arc_sweep posX posY endX endY i j cw / IZR n)) (a, l));
+    rewrite (iter_arc (posX + i) (posY + j) (hypot i j) (arc_sweep posX posY endX endY i j cw / IZR n) m a l) end.
   cbn [app]. reflexivity.
 Qed.
 
@@ -150,6 +158,17 @@ Theorem arc_point_angle posX posY endX endY i j cw k :
 Proof. reflexivity. Qed.
 
 (** *** the radius form (computeArcCenterOffsets) *)
+(** The guards of the generated code are resolved by their truth conditions, not by their shape: whichever way the source spells
+    "radius is not 0 and the end points differ" / "half the chord is at most |R|" (nested ifs, guard clauses with early returns, De Morgan
+    forms), the outermost remaining [if] is shown to take one of its branches from the hypotheses in the context. *)
+Ltac guard_prop := rewrite ?andb_true_iff, ?orb_true_iff, ?negb_true_iff, ?andb_false_iff, ?orb_false_iff, ?negb_false_iff,
+  ?Reqb_true, ?Reqb_false, ?Rleb_true, ?Rleb_false, ?Rltb_true, ?Rltb_false, ?Rgeb_true.
+Ltac resolve_if tac :=
+  match goal with |- context [if ?c then _ else _] =>
+    let G := fresh "G" in
+    first [ assert (G : c = true) by (repeat guard_prop; tac) | assert (G : c = false) by (repeat guard_prop; tac) ];
+    rewrite G; clear G
+  end.
 (** axis-aligned chord (deltaX * deltaY = 0) and R at least half the chord: the centre is at distance |R| from both
     end points *)
 Theorem radius_centre_axis_aligned posX posY endX endY radius cw :
@@ -160,12 +179,8 @@ Theorem radius_centre_axis_aligned posX posY endX endY radius cw :
   (posX + i - endX) * (posX + i - endX) + (posY + j - endY) * (posY + j - endY) = radius * radius.
 Proof.
   intros HR HP HA HH. unfold computeArcCenterOffsets. cbv zeta.
-  assert (G : negb (Reqb radius 0) && (negb (Reqb posX endX) || negb (Reqb posY endY)) = true).
-  { apply andb_true_iff. split; [apply negb_true_iff, Reqb_false; exact HR|].
-    apply orb_true_iff. destruct HP as [H|H]; [left|right]; apply negb_true_iff, Reqb_false; exact H. }
-  rewrite G. replace (IZR 2) with 2 by reflexivity.
-  assert (L : Rleb (hypot (endX - posX) (endY - posY) / 2) (Rabs radius) = true) by (apply Rleb_true; exact HH).
-  rewrite L.
+  replace (IZR 2) with 2 by reflexivity.
+  resolve_if ltac:(tauto). resolve_if ltac:(lra). cbv iota.
   set (dx := endX - posX) in *. set (dy := endY - posY) in *. set (d := hypot dx dy) in *.
   assert (DP : 0 < d) by (apply hypot_pos; unfold dx, dy; destruct HP; [left|right]; lra).
   pose proof (hypot_sqr dx dy) as DS. fold d in DS.
@@ -198,10 +213,8 @@ Proof.
   { unfold hypot. replace ((3 - 0) * (3 - 0) + (4 - 0) * (4 - 0)) with (5 * 5) by lra. apply sqrt_square. lra. }
   split; [lra|]. split; [rewrite H5, Rabs_right by lra; lra|].
   unfold computeArcCenterOffsets. cbv zeta. rewrite H5. replace (IZR 2) with 2 by reflexivity.
-  assert (G : negb (Reqb (13 / 2) 0) && (negb (Reqb 0 3) || negb (Reqb 0 4)) = true).
-  { apply andb_true_iff. split; [apply negb_true_iff, Reqb_false; lra|]. apply orb_true_iff. left. apply negb_true_iff, Reqb_false. lra. }
-  rewrite G.
-  assert (L : Rleb (5 / 2) (Rabs (13 / 2)) = true) by (apply Rleb_true; rewrite Rabs_right by lra; lra). rewrite L.
+  assert (A : Rabs (13 / 2) = 13 / 2) by (apply Rabs_right; lra). rewrite A.
+  resolve_if ltac:(intuition lra). resolve_if ltac:(lra). cbv iota.
   assert (X : Rltb (13 / 2) (IZR 0) = false) by (apply Rltb_false; replace (IZR 0) with 0 by reflexivity; lra). rewrite X. cbn [xorb].
   assert (SQ : sqrt (13 / 2 * (13 / 2) - 5 / 2 * (5 / 2)) = 6).
   { replace (13 / 2 * (13 / 2) - 5 / 2 * (5 / 2)) with (6 * 6) by lra. apply sqrt_square. lra. }
